@@ -22,6 +22,7 @@ RULE = (
     "non-trivial = >=2 records of one type in one scope under a non-commutative merge, records on >=2 nesting levels, "
     "or recording tasks in sibling scopes; distinct = distinct program"
 )
+RULE += '; the same State instance may be recorded twice into one scope'
 LEVEL_TEXT = (
     "Reference fold: the harness logs (scope, type, id, merge) for every record in execution order; in each scope's "
     "completion callback read(T) must equal the left fold of that scope's own records and metrics(merge=m) the "
@@ -182,9 +183,10 @@ def _lineage_prefix(q, p):
 
 def strategy(tier):
     rec = st.builds(
-        lambda t, m: {"k": "record", "type": t, "merge": m},
+        lambda t, m, reuse: {"k": "record", "type": t, "merge": m, "reuse": reuse},
         st.sampled_from(["MA", "MA", "MB", "MC", "MF", "MA2", "MA2"]),
         st.sampled_from(["default", "replace", "concat", "concat", "sum", "raising"]),
+        st.sampled_from([False, False, False, True]),  # record the very same instance as the previous record of this type
     )
     sleep = st.builds(lambda t: {"k": "sleep", "t": t}, st.sampled_from([0.25, 0.5, 1]))
     names = st.sampled_from(["s", "m", "n"])
